@@ -6,7 +6,8 @@ import Driver.Util
    in24 <a>        → `<class> res=<INT24TORES bits> sig=<INT24TOSIG bits>`
    inf <bits>      → `<class> res=<FLOAT2RES bits> sig=<FLOAT2SIG bits>`
    out <bits>      → `<class> i16=<RES2INT16> i24=<RES2INT24> f=<RES2FLOAT bits>`
-   f2i16 <hex>     celt_float2int16 on an array of little-endian floats → int16 values `a,b,c`          -/
+   f2i16 <hex>     celt_float2int16 on an array of little-endian floats → int16 values `a,b,c`
+   proj <m0,m1,…> <hex>   one output sample of mapping_matrix_multiply_channel_out_short: Q15 cells, stream floats → `<plain|saturated> i16=<v>` -/
 namespace Driver.SuitePcm
 open Opus Opus.Pcm Driver
 
@@ -57,6 +58,18 @@ def handle : List String → String
       | some xs => s!"n={xs.length} {intList (celtFloat2Int16 xs)}"
       | none => "bad-op"
     | none => "bad-op"
+  | ["proj", cells, hex] =>
+    match parseIntList cells, parseHex hex with
+    | some ms, some bs =>
+      match bytesToBits bs with
+      | some xs =>
+        if ms.length = xs.length ∧ ms.all (fun m => decide (-32768 ≤ m ∧ m ≤ 32767)) then
+          let o := projOut16 ms xs
+          let exact := (List.zip ms xs).foldl (fun acc p => acc + (p.1 * float2Int16 p.2 + 16384) / 32768) (0 : Int)
+          s!"{if o = exact then "plain" else "saturated"} i16={o}"
+        else "bad-op"
+      | none => "bad-op"
+    | _, _ => "bad-op"
   | _ => "bad-op"
 
 end Driver.SuitePcm
